@@ -62,3 +62,8 @@ Proof. pose proof clinger_guard as C. pose proof normal_fast_guard as N. intuiti
 Theorem unchecked_str_construction_is_sound : forall fuel l d h rest,
   Ref.utf8_valid l = true -> Ref.str_body true fuel l = Some (d, h, rest) -> Ref.utf8_valid d = true /\ Ref.utf8_valid rest = true.
 Proof. exact Utf8.decoded_string_is_valid_utf8. Qed.
+
+(* block loads of the scanners stay inside the padding appended behind the text: the widest block found in
+   the source on this run fits PADDING_SIZE as dumped from the crate on this run *)
+Theorem block_loads_stay_in_the_padding : forall len i, (0 <= i < len -> i + G_MAX_BLOCK <= len + Z.of_N PADDING_SIZE)%Z.
+Proof. exact padding_covers_block_loads. Qed.
